@@ -89,7 +89,11 @@ def generate(seed, run, tier):
         for p in pos:
             if p == i:
                 cr = {'op': 'crash_restart', 'stale_example': rf.chance(0.3)}
-                if Stream(seed, ID, base_run, 'resume_order', i, len(out)).chance(0.3):
+                if Stream(seed, ID, base_run, 'resume_order', i, len(out)).chance(0.3) and \
+                        not any(o['op'] == 'load_ckpt' for o in ops):
+                    # (only in histories without a load into the live model: if a library keeps an option in the
+                    # state_dict, an earlier load may have put back an older value than the script's last call, and
+                    # re-issuing the calls after the load would then override state - a script bug, not a library one)
                     cr['config_after_load'] = True
                 if rf.chance(0.25):
                     # the restarted script looks at the fresh wrapper before it loads the checkpoint
